@@ -345,7 +345,7 @@ var _ = felt.Zero
 var _ db.KeyValueStore = (*fault.Store)(nil)
 
 func TestPropCrashAndFailedCommit(t *testing.T) {
-	stats.Check(t, stats.Budget{Quick: 10, Thorough: 150},
+	stats.Check(t, stats.Budget{Quick: 10, Thorough: 25},
 		"operation scripts (4-10 ops from store/revert/set L1 head/persist filter snapshot/graceful/ungraceful restart) over generated chains, optionally on the 8188-block base so stores cross the real index-window rollover; the script runs once uninterrupted to count committed writes W, then for k in 1..W (quick: 3 drawn k per case; thorough: all): (a) crash after commit k -> fresh Blockchain on the frozen image must equal (whole Reader API, state at every block, tries' roots, per-address events) a node at the chain before or after the interrupted op, then finish the script and equal the uninterrupted final node; (b) commit k fails -> the call returns an error, the SAME object equals the chain before the op, the retry and the rest of the script succeed and end equal; non-trivial = the fault hit a store or revert (commit carrying a running-filter mutation)",
 		runCase)
 }
